@@ -476,3 +476,76 @@ def push_fan(name, transport="tcp", npull=3, stalled=(), n=300, size=2000, late_
             ops.append({"op": "recv_n", "sock": nm, "n": n, "timeout_ms": 2500})
         tasks.append({"name": nm, "ops": ops})
     return {"name": name, "deadline_ms": 90000, "sockets": socks, "tasks": tasks}
+
+
+# ---- ROUTER addressing (C11) ------------------------------------------------------------
+SHAPES = [[24], [0], [0, 24], [24, 0], [24, 0, 24], [0, 0], [300, 24]]
+
+
+def router_scenario(name, transport="tcp", peers=(("DEALER", "A"), ("DEALER", "B"), ("DEALER", None), ("REQ", "R")), mandatory=False, uring=False):
+    """ROUTER binds and echoes every message back to the identity it came from; each peer sends one
+    message per payload shape and reads the echo. Then the ROUTER addresses each configured identity
+    explicitly, and an identity nobody has."""
+    ep = endpoint(transport, name)
+    o_ = [i32(IO_URING_SESSION_ENABLED, 1)] if uring else []
+    socks = [{"name": "router", "type": "ROUTER", "opts": o_ + [i32(RCVTIMEO, 2500), i32(SNDTIMEO, 2500)] + ([i32(ROUTER_MANDATORY, 1)] if mandatory else [])}]
+    parties = len(peers) + 1
+    total = 0
+    tasks = []
+    for pi, (ty, pid) in enumerate(peers):
+        nm = "p%d" % pi
+        opts = o_ + [i32(RCVTIMEO, 2500), i32(SNDTIMEO, 2500)]
+        if pid:
+            opts.append([ROUTING_ID, "str", pid])
+        socks.append({"name": nm, "type": ty, "opts": opts})
+        ops = [{"op": "barrier", "name": "go", "parties": parties}, {"op": "connect", "sock": nm, "ep": "$ep"}, {"op": "sleep", "ms": 200}]
+        shapes = SHAPES if ty == "DEALER" else [[24], [300]]
+        for k, sh in enumerate(shapes, 1):
+            total += 1
+            if ty == "DEALER":
+                ops.append({"op": "send_mp", "sock": nm, "mid": "%s:%d" % (nm, k), "sizes": sh, "timeout_ms": 2500})
+                ops.append({"op": "recv_mp", "sock": nm, "timeout_ms": 2500})
+            else:
+                ops.append({"op": "send", "sock": nm, "mid": "%s:%d.1" % (nm, k), "size": sh[0], "timeout_ms": 2500})
+                ops.append({"op": "recv", "sock": nm, "timeout_ms": 2500})
+        ops.append({"op": "barrier", "name": "phase2", "parties": parties})
+        # explicit addressing phase: whatever arrives must be addressed to this peer
+        if ty == "DEALER":
+            ops.append({"op": "recv_n", "sock": nm, "n": 3, "timeout_ms": 900, "multipart": True})
+        tasks.append({"name": nm, "ops": ops})
+    rops = [{"op": "bind", "sock": "router", "ep": ep, "save": "ep"}, {"op": "barrier", "name": "go", "parties": parties},
+            {"op": "echo_n", "sock": "router", "n": total, "timeout_ms": 3000},
+            {"op": "barrier", "name": "phase2", "parties": parties}]
+    for pi, (ty, pid) in enumerate(peers):
+        if ty == "DEALER" and pid:
+            rops.append({"op": "send_mp", "sock": "router", "mid": "to-p%d:1" % pi, "sizes": [24, 0, 24], "prefix_hex": [pid.encode().hex()], "timeout_ms": 2500})
+    rops.append({"op": "send_mp", "sock": "router", "mid": "to-nobody:1", "sizes": [24], "prefix_hex": [b"NOBODY".hex()], "timeout_ms": 2500})
+    rops.append({"op": "sleep", "ms": 1000})
+    tasks.append({"name": "router", "ops": rops})
+    return {"name": name, "uring": uring, "deadline_ms": 60000, "sockets": socks, "tasks": tasks,
+            "peers": [list(p) for p in peers], "mandatory": mandatory}
+
+
+def router_reconnect(name, transport="tcp"):
+    """A DEALER with identity A talks to the ROUTER, goes away, and a new DEALER with the same identity
+    connects: messages addressed to A must reach the new connection."""
+    ep = endpoint(transport, name)
+    socks = [{"name": "router", "type": "ROUTER", "opts": [i32(RCVTIMEO, 2500), i32(SNDTIMEO, 2500), i32(ROUTER_MANDATORY, 1)]},
+             {"name": "d1", "type": "DEALER", "opts": [[ROUTING_ID, "str", "A"], i32(RCVTIMEO, 2500), i32(LINGER, 200)]},
+             {"name": "d2", "type": "DEALER", "opts": [[ROUTING_ID, "str", "A"], i32(RCVTIMEO, 2500)]}]
+    return {"name": name, "deadline_ms": 40000, "sockets": socks, "tasks": [
+        {"name": "router", "ops": [{"op": "bind", "sock": "router", "ep": ep, "save": "ep"}, {"op": "barrier", "name": "go", "parties": 2},
+                                   {"op": "echo_n", "sock": "router", "n": 1, "timeout_ms": 3000},
+                                   {"op": "barrier", "name": "gone", "parties": 2},
+                                   {"op": "echo_n", "sock": "router", "n": 1, "timeout_ms": 3000},
+                                   {"op": "send_mp", "sock": "router", "mid": "to-A:2", "sizes": [24], "prefix_hex": [b"A".hex()], "timeout_ms": 2500},
+                                   {"op": "sleep", "ms": 600}]},
+        {"name": "dealers", "ops": [{"op": "barrier", "name": "go", "parties": 2}, {"op": "connect", "sock": "d1", "ep": "$ep"}, {"op": "sleep", "ms": 200},
+                                    {"op": "send_mp", "sock": "d1", "mid": "d1:1", "sizes": [24], "timeout_ms": 2500},
+                                    {"op": "recv_mp", "sock": "d1", "timeout_ms": 2500},
+                                    {"op": "close", "sock": "d1", "timeout_ms": 5000}, {"op": "sleep", "ms": 500},
+                                    {"op": "connect", "sock": "d2", "ep": "$ep"}, {"op": "sleep", "ms": 300},
+                                    {"op": "barrier", "name": "gone", "parties": 2},
+                                    {"op": "send_mp", "sock": "d2", "mid": "d2:1", "sizes": [24], "timeout_ms": 2500},
+                                    {"op": "recv_mp", "sock": "d2", "timeout_ms": 2500},
+                                    {"op": "recv_mp", "sock": "d2", "timeout_ms": 2500}]}]}
